@@ -116,8 +116,14 @@ static void handler(const Line& t, Out& o) {
     Bytes img; for (size_t i = 2; i < t.size(); ++i) img.push_back((uint8_t)t[i]);
     Bytes cur = x.ser(0);
     if (cur == img) o.R(1);
+    else if (x.unordered_layout(cur) && cur.size() == img.size() && x.canon(cur) == x.canon(img)) o.R(3);
+    else if (x.unordered_layout(cur)) {
+      // a stored hash table may also differ in size (growth policy): such images are compared through their content
+      std::unique_ptr<Obj> a(x.de(cur.data(), cur.size())), b(x.de(img.data(), img.size()));
+      Line la, lb; a->observe(la, 0); b->observe(lb, 0);
+      o.R(la == lb ? 3 : 0);
+    }
     else if (cur.size() != img.size()) o.R(-2);
-    else if (x.unordered_layout(cur) && x.canon(cur) == x.canon(img)) o.R(3);
     else o.R(0);
     break; }
   case 0xd: {   // hand-made (hostile) inline image through r's readers, guarded: R = total(1) + the counters of a guarded loop
